@@ -108,3 +108,146 @@ Section WithFacts.
     - intros k p Hp. rewrite Hp. apply rt_insert_keys.
   Qed.
 End WithFacts.
+
+(** ** The number of messages: every non-group error contributes one message, an *of error its own message plus
+    what its definitions' errors contribute, a group error what its children contribute -- at any nesting. *)
+Section Counting.
+  Variable F : facts.
+  Let M := f_masks F.
+
+  (* what insert_err adds, by the same recursion (kind 0: top level, only codes with a message template) *)
+  Fixpoint nmsgs (fuel : nat) (kind : nat) (e : error) : nat :=
+    match fuel with
+    | O => O
+    | S f =>
+        if is_logic M e then S (fold_left (fun n c => n + nmsgs f 2 c) (child_errors M e) O)
+        else if is_group M e then fold_left (fun n c => n + nmsgs f 1 c) (child_errors M e) O
+        else match kind with
+             | O => if has_message F (e_code e) then 1 else 0
+             | _ => 1
+             end
+    end.
+
+  (* all document paths met by the insertion are non-empty *)
+  Fixpoint paths_ok (fuel : nat) (e : error) : Prop :=
+    match fuel with
+    | O => True
+    | S f => e_dp e <> [] /\ Forall (paths_ok f) (child_errors M e)
+    end.
+
+  Lemma fold_insert_count f kind pf : forall cs t,
+    (forall c t, In c cs -> rt_count (insert_err F f kind pf c t) = rt_count t + nmsgs f kind c) ->
+    rt_count (fold_left (fun t c => insert_err F f kind pf c t) cs t) =
+    rt_count t + fold_left (fun n c => n + nmsgs f kind c) cs O.
+  Proof.
+    induction cs as [|c cs IH]; intros t H; [cbn [fold_left]; lia|].
+    cbn [fold_left]. rewrite IH by (intros c' t' Hc'; apply H; right; exact Hc').
+    rewrite (H c t (or_introl eq_refl)).
+    assert (Hacc : forall l a, fold_left (fun n c0 => n + nmsgs f kind c0) l a = a + fold_left (fun n c0 => n + nmsgs f kind c0) l O).
+    { induction l as [|y l IHl]; intro a; cbn [fold_left]; [lia|]. rewrite IHl. rewrite (IHl (0 + nmsgs f kind y)). lia. }
+    rewrite (Hacc cs (0 + nmsgs f kind c)). lia.
+  Qed.
+
+  Lemma insert_count : forall fuel kind pf e t,
+    paths_ok fuel e -> rt_count (insert_err F fuel kind pf e t) = rt_count t + nmsgs fuel kind e.
+  Proof.
+    induction fuel as [|f IH]; intros kind pf e t Hp; [cbn [insert_err nmsgs]; lia|].
+    cbn [paths_ok] in Hp. destruct Hp as [Hne Hch]. cbn [insert_err nmsgs]. fold M.
+    destruct (is_logic M e).
+    - rewrite fold_insert_count.
+      + rewrite rt_insert_count by exact Hne. lia.
+      + intros c t' Hc. apply IH. rewrite Forall_forall in Hch. apply Hch. exact Hc.
+    - destruct (is_group M e).
+      + apply fold_insert_count. intros c t' Hc. apply IH. rewrite Forall_forall in Hch. apply Hch. exact Hc.
+      + destruct kind as [|[|k]].
+        * destruct (has_message F (e_code e)); [rewrite rt_insert_count by exact Hne|]; lia.
+        * rewrite rt_insert_count by exact Hne. lia.
+        * rewrite rt_insert_count by exact Hne. lia.
+  Qed.
+
+  (* the path rewriting keeps codes and shapes, and makes every child path extend its parent's *)
+  Lemma set_dp_code e dp ch : e_code (set_dp e dp ch) = e_code e.
+  Proof. destruct e; reflexivity. Qed.
+  Lemma set_dp_dp e dp ch : e_dp (set_dp e dp ch) = dp.
+  Proof. destruct e; reflexivity. Qed.
+  Lemma set_dp_children e dp ch : e_children (set_dp e dp ch) = ch.
+  Proof. destruct e; reflexivity. Qed.
+
+  Lemma is_logic_set_dp e dp ch : is_logic M (set_dp e dp ch) = is_logic M e.
+  Proof. unfold is_logic. rewrite set_dp_code. reflexivity. Qed.
+  Lemma is_group_set_dp e dp ch : is_group M (set_dp e dp ch) = is_group M e.
+  Proof. unfold is_group. rewrite set_dp_code. reflexivity. Qed.
+  Lemma child_errors_set_dp e dp ch : child_errors M (set_dp e dp ch) = if is_group M e then ch else [].
+  Proof. unfold child_errors. rewrite is_group_set_dp, set_dp_children. reflexivity. Qed.
+
+  Lemma rewrite_code : forall fuel off e, e_code (rewrite F fuel off e) = e_code e.
+  Proof.
+    destruct fuel as [|f]; intros off e; [reflexivity|]. cbn [rewrite]. fold M.
+    destruct (is_logic M e); [apply set_dp_code|]. destruct (is_group M e); [apply set_dp_code|reflexivity].
+  Qed.
+  Lemma rewrite_dp : forall fuel off e, e_dp (rewrite F fuel off e) = e_dp e.
+  Proof.
+    destruct fuel as [|f]; intros off e; [reflexivity|]. cbn [rewrite]. fold M.
+    destruct (is_logic M e); [apply set_dp_dp|]. destruct (is_group M e); [apply set_dp_dp|reflexivity].
+  Qed.
+
+  Lemma rewrite_paths_ok : forall fuel off e, e_dp e <> [] -> paths_ok fuel (rewrite F fuel off e).
+  Proof.
+    induction fuel as [|f IH]; intros off e Hne; [exact I|].
+    cbn [paths_ok]. split; [rewrite rewrite_dp; exact Hne|].
+    cbn [rewrite]. fold M.
+    destruct (is_logic M e) eqn:El.
+    - rewrite child_errors_set_dp. destruct (is_group M e); [|constructor].
+      apply Forall_forall. intros c' Hc'. apply in_map_iff in Hc' as [c [<- _]].
+      apply IH. rewrite set_dp_dp. intro H. apply app_eq_nil in H as [H _]. exact (Hne H).
+    - destruct (is_group M e) eqn:Eg.
+      + rewrite child_errors_set_dp, Eg.
+        apply Forall_forall. intros c' Hc'. apply in_map_iff in Hc' as [c [<- _]].
+        apply IH. rewrite set_dp_dp. intro H. apply app_eq_nil in H as [H _]. exact (Hne H).
+      + unfold child_errors. rewrite Eg. constructor.
+  Qed.
+
+  Lemma nmsgs_ext f kind : forall (g : error -> error) cs,
+    (forall c, In c cs -> nmsgs f kind (g c) = nmsgs f kind c) ->
+    fold_left (fun n c => n + nmsgs f kind c) (map g cs) O = fold_left (fun n c => n + nmsgs f kind c) cs O.
+  Proof.
+    intros g cs. generalize O. induction cs as [|c cs IH]; intros a H; [reflexivity|].
+    cbn [map fold_left]. rewrite (H c (or_introl eq_refl)). apply IH. intros c' Hc'. apply H. right. exact Hc'.
+  Qed.
+
+  Lemma nmsgs_set_dp : forall fuel kind e dp, nmsgs fuel kind (set_dp e dp (e_children e)) = nmsgs fuel kind e.
+  Proof.
+    destruct fuel as [|f]; intros kind e dp; [reflexivity|]. cbn [nmsgs].
+    rewrite is_logic_set_dp, is_group_set_dp, child_errors_set_dp, set_dp_code. unfold child_errors.
+    destruct (is_group M e); reflexivity.
+  Qed.
+
+  Lemma nmsgs_rewrite : forall fuel kind off e, nmsgs fuel kind (rewrite F fuel off e) = nmsgs fuel kind e.
+  Proof.
+    induction fuel as [|f IH]; intros kind off e; [reflexivity|].
+    cbn [rewrite nmsgs]. fold M.
+    destruct (is_logic M e) eqn:El; destruct (is_group M e) eqn:Eg.
+    - rewrite is_logic_set_dp, El, child_errors_set_dp, Eg. f_equal.
+      apply nmsgs_ext. intros c _. rewrite IH. apply nmsgs_set_dp.
+    - rewrite is_logic_set_dp, El, child_errors_set_dp, Eg. unfold child_errors. rewrite Eg. reflexivity.
+    - rewrite is_logic_set_dp, El, is_group_set_dp, Eg, child_errors_set_dp, Eg.
+      apply nmsgs_ext. intros c _. rewrite IH. apply nmsgs_set_dp.
+    - rewrite El, Eg. reflexivity.
+  Qed.
+
+  Theorem add_error_count e t :
+    e_dp e <> [] ->
+    rt_count (add_error F t e) = rt_count t + nmsgs (S (err_depth e)) 0 e.
+  Proof.
+    intro Hne. unfold add_error. rewrite insert_count by (apply rewrite_paths_ok; exact Hne).
+    rewrite nmsgs_rewrite. reflexivity.
+  Qed.
+
+  Theorem render_count : forall errs, Forall (fun e => e_dp e <> []) errs ->
+    rt_count (fst (render F errs)) = fold_left (fun n e => n + nmsgs (S (err_depth e)) 0 e) errs O.
+  Proof.
+    intros errs H. unfold render. cbn [fst]. change O with (rt_count rt_empty) at 2. generalize rt_empty.
+    induction H as [|e errs He _ IH]; intro t; [reflexivity|].
+    cbn [fold_left]. rewrite IH. rewrite add_error_count by exact He. reflexivity.
+  Qed.
+End Counting.
